@@ -460,6 +460,8 @@ func (i *interpreter) startPath(w workItem) {
 	i.tainted = false
 	i.vcwd = ""
 	i.egErr = nil
+	i.gomaxprocs = 0
+	i.syncMaps = nil
 	i.colorOn, i.capture, i.captured = false, false, nil
 	i.goOrder, i.goPending = nil, nil
 	i.mapRangers = nil
@@ -634,6 +636,7 @@ func Explore(cfg *Config) *Result {
 	assumes := map[string]bool{}
 	var wg sync.WaitGroup
 	var fatal interface{}
+	violating := 0
 	for w := 0; w < cfg.Workers; w++ {
 		wg.Add(1)
 		go func(wid int) {
@@ -693,10 +696,23 @@ func Explore(cfg *Config) *Result {
 					}
 					res.Samples = append(res.Samples, Sample{Model: mm, Choices: i.choiceMap(), Inputs: i.renderInputs(mm), Reach: pr, End: end, NDecisions: len(i.taken)})
 				}
+				if len(i.events) > 0 {
+					violating++
+				}
+				// a tree that violates the property on hundreds of paths need not be explored to the
+				// end (a changed tree can also multiply the paths): the violations found are reported
+				enough := violating >= 400
 				over := cfg.MaxPaths > 0 && q.paths > cfg.MaxPaths
 				dead := !cfg.Deadline.IsZero() && time.Now().After(cfg.Deadline)
 				mu.Unlock()
 				q.done()
+				if enough {
+					q.mu.Lock()
+					q.stopped = true
+					q.mu.Unlock()
+					q.cond.Broadcast()
+					break
+				}
 				if over || dead {
 					q.mu.Lock()
 					q.stopped = true
